@@ -1,1 +1,176 @@
-/- C06: property theorems (not yet built). -/
+/- C06 — The bundled parsers accept the same language and build the same tree.
+   Property theorems only (helpers: Proofs/Pratt.lean, Proofs/Unescape.lean). -/
+import JrsVerif.Proofs.Pratt
+import JrsVerif.Proofs.Unescape
+
+namespace JrsVerif.C06
+open JrsVerif.Generated JrsVerif.Pratt
+
+/-- C06.1a  the BINARY part of the table extracted from crates/jrsonnet-ir-parser/src/lib.rs denotes
+    the Jsonnet grammar: precedence classes exactly as the grammar's levels, all left-associative -/
+theorem table_wfbin_ir : WFbin irTable := by
+  refine ⟨?_, ?_⟩
+  · intro o₁ o₂; cases o₁ <;> cases o₂ <;> decide
+  · intro o; cases o <;> rfl
+
+/-- every prefix operator of the lexer has a row in the IR table -/
+theorem ir_prefix_total : ∀ u, (irTable.pref u).isSome := by intro u; cases u <;> rfl
+
+/-- FULL statement: the IR table denotes the grammar, including "unary binds tighter than every
+    binary operator".  False of the current code: prefix power 20 = left power of `* / %` —
+    known finding `c06_unary_looser_than_mul` (the repair breaks a pinned snapshot test). -/
+def tableWfIrStmt : Prop := WF irTable
+
+theorem tableWfIr_counterexample : ¬ tableWfIrStmt := by
+  intro h
+  exact absurd (h.prefixTight .BitNot 20 rfl .Mul) (by decide)
+
+/-- the defect is confined to the multiplicative operators: against every other binary operator
+    every prefix operator is tighter (exactly the negation of the classifier) -/
+theorem tableWfIr_partial :
+    WFbin irTable ∧ ∀ u p, irTable.pref u = some p → ∀ o, o ≠ .Mul → o ≠ .Div → o ≠ .Mod → (irTable.inf o).1 < p := by
+  refine ⟨table_wfbin_ir, ?_⟩
+  intro u p h o h1 h2 h3
+  cases u <;> cases o <;> first | exact absurd rfl h1 | exact absurd rfl h2 | exact absurd rfl h3 | (cases h; decide)
+
+/-- the concrete witness replayed by the harness: `~ a * b` becomes `~(a * b)` -/
+theorem ir_unary_mul_counterexample :
+    parse irTable (JrsVerif.Spec.print (.bin .Mul (.un .BitNot (.atom 0)) (.atom 1)))
+      = some (.un .BitNot (.bin .Mul (.atom 0) (.atom 1))) := by decide
+
+/-- C06.1b  the same for the table extracted from crates/jrsonnet-rowan-parser/src/precedence.rs -/
+theorem table_wfbin_rowan : WFbin rowanTable := by
+  refine ⟨?_, ?_⟩
+  · intro o₁ o₂; cases o₁ <;> cases o₂ <;> decide
+  · intro o; cases o <;> rfl
+
+def tableWfRowanStmt : Prop := WF rowanTable
+
+theorem tableWfRowan_counterexample : ¬ tableWfRowanStmt := by
+  intro h
+  exact absurd (h.prefixTight .BitNot 20 rfl .Mul) (by decide)
+
+theorem tableWfRowan_partial :
+    WFbin rowanTable ∧ ∀ u p, rowanTable.pref u = some p → ∀ o, o ≠ .Mul → o ≠ .Div → o ≠ .Mod → (rowanTable.inf o).1 < p := by
+  refine ⟨table_wfbin_rowan, ?_⟩
+  intro u p h o h1 h2 h3
+  cases u <;> cases o <;> first | exact absurd rfl h1 | exact absurd rfl h2 | exact absurd rfl h3 | (cases h; decide) | (simp [rowanTable, rowanPrefixBP] at h)
+
+/-- C06.1c  the levels of the PEG `precedence!` block denote the same grammar: every binary rule
+    is `a:(@) op b:@` (left-associative) and the prefix level lies above every binary level -/
+theorem table_wf_peg : WF pegTable := by
+  refine ⟨⟨?_, ?_⟩, ?_⟩
+  · intro o₁ o₂; cases o₁ <;> cases o₂ <;> decide
+  · intro o; cases o <;> rfl
+  · intro u p h o; cases u <;> cases o <;> (cases h; decide)
+
+theorem peg_prefix_total : ∀ u, (pegTable.pref u).isSome := by intro u; cases u <;> rfl
+
+/-- postfix forms (index, slice, call, object extension) bind tighter than prefix operators and
+    atoms tighter still in the PEG grammar; object application in the rowan table binds at least
+    as tight as every prefix operator -/
+theorem peg_postfix_above_prefix :
+    (∀ u l, pegPrefix u = some l → l < pegPostfixLevel) ∧ pegPostfixLevel < pegAtomLevel := by
+  refine ⟨?_, by decide⟩
+  intro u l h; cases u <;> (cases h; decide)
+
+theorem rowan_objapply_above_prefix : ∀ u p, rowanPrefixBP u = some p → p ≤ rowanObjApplyBP.1 := by
+  intro u p h; cases u <;> first | (cases h; decide) | (simp [rowanTable, rowanPrefixBP] at h)
+
+/-- C06.1d  the two Pratt parsers use the same binary table, and the same prefix powers wherever
+    the rowan parser has the operator at all -/
+theorem tables_agree :
+    (∀ o, irInfixBP o = rowanInfixBP o) ∧ (∀ u p, rowanPrefixBP u = some p → irPrefixBP u = some p) := by
+  refine ⟨?_, ?_⟩
+  · intro o; cases o <;> rfl
+  · intro u p h; cases u <;> first | (cases h; rfl) | (simp [rowanTable, rowanPrefixBP] at h)
+
+/-- the PEG levels induce the same precedence order as the IR binding powers -/
+theorem peg_agrees_ir : ∀ o₁ o₂, (pegInfixBP o₁).1 < (pegInfixBP o₂).1 ↔ (irInfixBP o₁).1 < (irInfixBP o₂).1 := by
+  intro o₁ o₂; cases o₁ <;> cases o₂ <;> decide
+
+/-- FULL statement for the rowan parser: it knows every prefix operator of the language.
+    False of the current code (no unary `+` kind) — known finding `c06_rowan_no_unary_plus`. -/
+def rowanPrefixTotalStmt : Prop := ∀ u, (rowanTable.pref u).isSome
+
+theorem rowanPrefixTotal_counterexample : ¬ rowanPrefixTotalStmt := by
+  intro h; exact absurd (h .Plus) (by decide)
+
+/-- … and it holds for every prefix operator other than `+` (exactly the classifier's negation) -/
+theorem rowanPrefixTotal_partial : ∀ u, u ≠ .Plus → (rowanTable.pref u).isSome := by
+  intro u hu; cases u <;> first | rfl | exact absurd rfl hu
+
+/-! ### from tables to trees -/
+
+/-- C06.2 (generic, table-independent)  For EVERY binding-power table whose binary part denotes the
+    Jsonnet grammar, the Pratt loop `expr_bp` parses the minimal-parenthesis rendering of every
+    expression tree — every operator in every associativity position, any depth — back to exactly
+    that tree, provided the prefix operators used in the tree are tight in the table. -/
+theorem pratt_generic (T : Table) (hT : WFbin T) (e : Ast) (ht : Tight T e) :
+    parse T (JrsVerif.Spec.print e) = some e := parse_print T hT e ht
+
+/-- corollary for the PEG levels: every tree, no side condition -/
+theorem parse_print_peg (e : Ast) : parse pegTable (JrsVerif.Spec.print e) = some e :=
+  parse_print pegTable table_wf_peg.toWFbin e (tight_of_wf table_wf_peg peg_prefix_total e)
+
+/-- the reference table used by the driver is itself well-formed, so the driver's "spec" answer
+    is the grammar's tree -/
+theorem table_wf_spec : WF JrsVerif.Spec.table := by
+  refine ⟨⟨?_, ?_⟩, ?_⟩
+  · intro o₁ o₂; cases o₁ <;> cases o₂ <;> decide
+  · intro o; rfl
+  · intro u p h o; cases h; cases o <;> decide
+
+theorem parse_print_spec (e : Ast) : parse JrsVerif.Spec.table (JrsVerif.Spec.print e) = some e :=
+  parse_print _ table_wf_spec.toWFbin e (tight_of_wf table_wf_spec (fun _ => rfl) e)
+
+/-- FULL statement for the default parser's table.  False of the current code (finding
+    `c06_unary_looser_than_mul`). -/
+def parsePrintIrStmt : Prop := ∀ e, parse irTable (JrsVerif.Spec.print e) = some e
+
+theorem parsePrintIr_counterexample : ¬ parsePrintIrStmt := by
+  intro h
+  have := h (.bin .Mul (.un .BitNot (.atom 0)) (.atom 1))
+  rw [ir_unary_mul_counterexample] at this
+  exact absurd this (by decide)
+
+/-- … it holds for every tree without prefix operators (all 19 binary operators in every
+    associativity position), for the IR table and for the rowan table -/
+theorem parsePrintIr_partial (e : Ast) (h : NoUnary e) : parse irTable (JrsVerif.Spec.print e) = some e :=
+  parse_print irTable table_wfbin_ir e (tight_of_noUnary irTable e h)
+
+theorem parsePrintRowan_partial (e : Ast) (h : NoUnary e) :
+    parse rowanTable (JrsVerif.Spec.print e) = some e :=
+  parse_print rowanTable table_wfbin_rowan e (tight_of_noUnary rowanTable e h)
+
+/-- non-vacuity: `(a - (b - c)) * -d ^ e` has a parenthesised right operand, a looser left operand
+    and a prefix operator; it is Tight in the PEG table and round-trips -/
+example :
+    let e : Ast := .bin .BitXor (.bin .Mul (.bin .Sub (.atom 0) (.bin .Sub (.atom 1) (.atom 2))) (.un .Minus (.atom 3))) (.atom 4)
+    Tight pegTable e ∧ JrsVerif.Spec.print e =
+      [.lpar, .atom 0, .bin .Sub, .lpar, .atom 1, .bin .Sub, .atom 2, .rpar, .rpar, .bin .Mul, .bin .Sub, .atom 3,
+       .bin .BitXor, .atom 4] ∧ parse pegTable (JrsVerif.Spec.print e) = some e := by
+  refine ⟨tight_of_wf table_wf_peg peg_prefix_total _, by decide, by decide⟩
+
+example : NoUnary (.bin .Sub (.atom 0) (.bin .Sub (.atom 1) (.atom 2))) := ⟨trivial, trivial, trivial⟩
+
+/-! ### literal decoding -/
+
+/-- C06.3  For EVERY string (list of code points) the decoder of crates/jrsonnet-ir/src/unescape.rs —
+    with the shift amounts, self-escapes and letter escapes extracted from the source — returns
+    exactly what the Jsonnet escape definition prescribes: same accept/reject, same code points;
+    `\uXXXX` by positional hex value, surrogate pairs combined by the UTF-16 formula, lone or
+    mismatched surrogates rejected, `\xHH` = code point 0xHH, `\/` accepted. -/
+theorem unescape_spec (s : List Nat) : JrsVerif.Unescape.unescape s = JrsVerif.Spec.decode s :=
+  JrsVerif.Unescape.unescape_eq_decode s
+
+/-- non-vacuity: `a\x41\uD83D\uDE00\/` decodes to `aA😀/`; a lone low surrogate is rejected -/
+example : JrsVerif.Spec.decode [97, 92, 120, 52, 49, 92, 117, 68, 56, 51, 68, 92, 117, 68, 69, 48, 48, 92, 47]
+    = some [97, 65, 0x1F600, 47] := by
+  simp [JrsVerif.Spec.decode, JrsVerif.Spec.escape, JrsVerif.Spec.hexNum, JrsVerif.Unescape.hexVal,
+    JrsVerif.Unescape.lookup, JrsVerif.Spec.simpleEscapes, JrsVerif.Unescape.push]
+example : JrsVerif.Spec.decode [92, 117, 68, 67, 48, 48] = none := by
+  simp [JrsVerif.Spec.decode, JrsVerif.Spec.escape, JrsVerif.Spec.hexNum, JrsVerif.Unescape.hexVal,
+    JrsVerif.Unescape.lookup, JrsVerif.Spec.simpleEscapes, JrsVerif.Unescape.push]
+
+end JrsVerif.C06
